@@ -33,6 +33,11 @@ def triple(x):
     yield x + 2
 
 
+def eleven(x):
+    for i in range(11):
+        yield x + i
+
+
 SOURCES = [src0, src1]
 UNARY = [inc, double]
-BY_NAME = {f.__name__: f for f in [src0, src1, inc, double, total, pair, triple]}
+BY_NAME = {f.__name__: f for f in [src0, src1, inc, double, total, pair, triple, eleven]}
